@@ -15,6 +15,28 @@ theorem C05_pointwise {σ} (init : σ) (feed : σ → Bytes → Res σ) (ds₁ d
   · simp [dgRecv]
   · simp [dgRecv]
 
+/-- **Errors isolated, stated as a replacement law.**  Replace the i-th datagram by *any* other byte string (a malformed
+    one, an empty one, two frames glued together): every other position of the result list is unchanged, and the
+    replaced position is decided by the replacement alone.  So a malformed datagram costs exactly one error at its own
+    position and can neither swallow nor duplicate a neighbour. -/
+theorem C05_replace_isolated {σ} (init : σ) (feed : σ → Bytes → Res σ) (ds₁ ds₂ : List Bytes) (d d' : Bytes) :
+    dgRecv init feed (ds₁ ++ d' :: ds₂) = (dgRecv init feed (ds₁ ++ d :: ds₂)).set ds₁.length (oneShot init feed d') ∧
+    (∀ i, i ≠ ds₁.length → (dgRecv init feed (ds₁ ++ d' :: ds₂))[i]? = (dgRecv init feed (ds₁ ++ d :: ds₂))[i]?) := by
+  have hset : dgRecv init feed (ds₁ ++ d' :: ds₂)
+      = (dgRecv init feed (ds₁ ++ d :: ds₂)).set ds₁.length (oneShot init feed d') := by
+    have hl : ds₁.length = (List.map (oneShot init feed) ds₁).length := by simp
+    simp only [dgRecv, List.map_append, List.map_cons]
+    rw [hl, List.set_append_right _ _ (Nat.le_refl _)]
+    simp
+  refine ⟨hset, ?_⟩
+  intro i hi
+  rw [hset, List.getElem?_set_ne (Ne.symm hi)]
+
+/-- non-vacuity of the replacement law on the separator framer: the middle datagram is replaced by a truncated frame -/
+example : dgRecv RU.init (RU.feed [10] 8 false) [[97, 10], [98], [99, 10]] = [.ok [97], .missing, .ok [99]] ∧
+    dgRecv RU.init (RU.feed [10] 8 false) [[97, 10], [98, 10], [99, 10]] = [.ok [97], .ok [98], .ok [99]] := by
+  decide +kernel
+
 /-- **One-shot interface derived from the incremental one** (the default `deserialize` of incremental serializers):
     a datagram is accepted exactly when it is one complete frame and nothing else; a frame and a half, or two frames,
     is *one* error, never two packets. -/
